@@ -4,9 +4,10 @@ Asserted: whenever crc16 / crc32c RETURN a value for an argument, it is the chec
 argument holds at the moment of the call, in the requested byte order - whatever was computed before in the process, whatever other
 library entry point used the checksums before, and whichever Python buffer type carries the bytes. For a memoryview "the bytes it
 holds" are the bytes it READS (tobytes()): with a step, backwards, from an offset, as rows of a 2-D / 3-D shape, in format 'b' / 'c' -
-not the bytes of the object it looks into.
+not the bytes of the object it looks into. Inputs that CONTAIN the checksum of their own front part (a record followed by its checksum,
+then padding or the next record) are byte strings like any other: sub-checks 'own-checksum-inside*' place that word at every alignment.
 Not asserted: that a given buffer type is accepted at all (a refusal by exception is fine for anything but bytes / bytearray /
-memoryview of them), anything about Cell.to_boc / from_boc / Address themselves (they only appear as earlier history), speed.
+whole-object memoryviews of them: a strided view refused with BufferError is a refusal, not a wrong checksum), anything about Cell.to_boc / from_boc / Address themselves (they only appear as earlier history), speed.
 """
 from hypothesis import strategies as st
 from harness.core import overlapped, Sub, Fail
@@ -27,6 +28,12 @@ RULE = ('cases are byte strings (hex). exhaustive sub-check: every string of len
         '(generator polynomial or a multiple of it xored into the bit stream at start / middle / end), Adler-32, the other one of the two '
         'checksums, CRC-32 and byte sum together, the multiset of bytes, everything but the first / last byte / one middle bit, or that '
         'have different lengths and equal IEEE CRC-32 (forged tail); '
+        'own-checksum-inside: the string contains the running checksum of everything before it (CRC-16 big / little-endian; the CRC-32C shift '
+        'register before the final inversion - the word that clears it - or the finished CRC-32C, little / big-endian), grid: after every '
+        'prefix length 0..40 (every alignment mod 16) and around 64, 256, 1024, 4096, 8192, 65536 (thorough 2^18, 2^20), followed by 0..16 zero '
+        'bytes / 0xFF / 0x01 / 0x80 bytes and a tail of 0..9 bytes, with one bit of the word flipped, after constant prefixes, three such words '
+        'in one input; generated: random prefix 0..160 bytes, 1..4 such words each followed by 0..17 filler bytes, random tail; asked: the '
+        'whole string as bytes / bytearray / memoryview and every prefix of it from inside the word to 8 bytes past it; '
         'after-other-entry-points: programs of 1..4 ordinary calls (Cell.to_boc with/without hash_crc32, has_idx, has_cache_bits; Cell.from_boc of a '
         'reference-built bag, sound or with one bit flipped, as bytes / hex / base64; Address rendered, printed, hashed; friendly address parsed, sound '
         'or with one bit flipped) and after each step and at the end the checksums of the byte strings involved (the bag, the bag without '
@@ -867,6 +874,149 @@ def classify_history(case):
         yield s['op'] + ('+crc' if s.get('crc') else '') + ('/damaged' if s.get('damage') is not None else '')
 
 
+# ---------------------------------------------------------------------------------------------------------------------
+# inputs that contain their own running checksum (a word that cancels the register of an implementation folding several bytes a step)
+
+_OWN_FORMS = ['crc16-be', 'crc16-le', 'crc32c-register-le', 'crc32c-register-be', 'crc32c-le', 'crc32c-be']
+
+
+def _own_word(data, form):
+    """the checksum state of `data` as bytes: CRC-16/XMODEM (= its register: no final xor), the CRC-32C shift register before the final
+    inversion (appended little-endian it clears the register), or the finished CRC-32C (appended little-endian it leaves the fixed residue)"""
+    if form.startswith('crc16'):
+        return refcrc.crc16_xmodem_fast(data).to_bytes(2, 'big' if form.endswith('be') else 'little')
+    v = refcrc.crc32c_fast(data)
+    if 'register' in form:
+        v ^= 0xFFFFFFFF
+    return v.to_bytes(4, 'big' if form.endswith('be') else 'little')
+
+
+def _make_own(case):
+    """prefix, then for each part [form, flip, fill byte, fill count]: the running checksum of EVERYTHING before it in that form (one
+    bit of it flipped if flip is not None), then `count` fill bytes; then the tail. -> (data, offsets of the inserted words)"""
+    import hashlib
+    if 'prefix' in case:
+        data = bytearray(bytes.fromhex(case['prefix']))
+    elif 'prefix_fill' in case:
+        data = bytearray([case['prefix_fill']]) * case['prefix_len']
+    else:
+        data = bytearray()
+        c = 0
+        while len(data) < case['prefix_len']:
+            data += hashlib.sha256(b'c18/own/%d/%d' % (case['seed'], c)).digest()
+            c += 1
+        del data[case['prefix_len']:]
+    at = []
+    for form, flip, fill, count in case['parts']:
+        w = bytearray(_own_word(bytes(data), form))
+        if flip is not None:
+            w[(flip // 8) % len(w)] ^= 0x80 >> (flip % 8)
+        at.append(len(data))
+        data += w
+        if flip is None and form == 'crc16-be' and refcrc.crc16_xmodem_fast(bytes(data)) != 0:
+            raise AssertionError('crc16 register not cleared (harness)')
+        if flip is None and form == 'crc32c-register-le' and refcrc.crc32c_fast(bytes(data)) != 0xFFFFFFFF:
+            raise AssertionError('crc32c register not cleared (harness)')
+        data += bytes([fill]) * count
+    data += bytes.fromhex(case.get('tail', ''))
+    return bytes(data), at
+
+
+def check_own(case):
+    """somewhere inside the input stands the checksum of everything before it (as a reader of a checksummed record, a bag with a
+    trailer followed by padding or by the next record, sees it): at every alignment mod 16, followed by 0..16 zero / other bytes,
+    once or several times, near the front or deep inside a long input; every prefix of the input up to 8 bytes past each such
+    word is asked too (the value straight after the word is known without computing: 0 for CRC-16, the fixed residue for CRC-32C)"""
+    from pytoniq_core.crypto.crc import crc16, crc32c
+    data, at = _make_own(case)
+    cuts = {len(data)}
+    for a, (form, flip, fill, count) in zip(at, case['parts']):
+        w = 2 if form.startswith('crc16') else 4
+        # long inputs: straight after the word and 3 bytes on; short ones: every length from inside the word to 8 bytes past it
+        cuts.update(c for c in ((a + w, a + w + 3) if len(data) > 200 else range(a + 1, a + w + 9)) if c <= len(data))
+    what = f'{len(data)} bytes, running checksum as {[p[0] for p in case["parts"]]} at offset(s) {at}'
+    for c in sorted(cuts):
+        s = data[:c]
+        e16, r32 = refcrc.crc16_xmodem_fast(s).to_bytes(2, 'big'), refcrc.crc32c_fast(s)
+        forms = [('bytes', s), ('bytearray', bytearray(s)), ('memoryview', memoryview(s))]
+        for fname, d in (forms if c == len(data) else forms[:1]):
+            g = crc16(d)
+            if g != e16:
+                return Fail('crc16/mismatch/input-contains-its-own-running-checksum', f'{what}: crc16(first {c} bytes as {fname})={g!r} '
+                            f'expected {e16.hex()}; input {data.hex()[:120]}')
+            for order in ('little', 'big'):
+                g = crc32c(d, order)
+                if g != r32.to_bytes(4, order):
+                    return Fail(f'crc32c/mismatch-{order}/input-contains-its-own-running-checksum', f'{what}: crc32c(first {c} bytes as '
+                                f'{fname},{order})={g!r} expected {r32.to_bytes(4, order).hex()}; input {data.hex()[:120]}')
+    if crc32c(data) != refcrc.crc32c_fast(data).to_bytes(4, 'little'):
+        return Fail('crc32c/default-byteorder', f'{what}: default byte order')
+    return None
+
+
+def enum_own(tier):
+    fills = [(0, k) for k in (0, 2, 4, 6, 8, 12, 16)] + [(0xFF, 4), (0x01, 2), (0x80, 8)]
+    seed = 0
+    # every prefix length 0..40 (every alignment mod 16 twice, below and above the sizes where word-wise code starts) and some longer ones
+    lens = list(range(0, 41)) + [48, 63, 64, 65, 66, 67, 100, 255, 256, 257, 258, 1000, 1021, 1022, 1023, 1024]
+    for n in lens:
+        for form in _OWN_FORMS:
+            for fill, count in fills:
+                if n > 40 and (fill, count) not in ((0, 2), (0, 4), (0, 8), (0xFF, 4)):
+                    continue
+                for tail in ('', '05', '746f6e', '0000000007', 'a5' * 9):
+                    if n > 40 and len(tail) not in (0, 2, 6):
+                        continue
+                    seed += 1
+                    yield {'prefix_len': n, 'seed': seed, 'parts': [[form, None, fill, count]], 'tail': tail}
+            # one bit of the word differs: all but one of the per-byte look-ups of a folded step are look-ups of 0
+            for flip in (0, 7, 8, 15, 16, 31):
+                seed += 1
+                yield {'prefix_len': n, 'seed': seed, 'parts': [[form, flip, 0, 6]], 'tail': ('', '746f6e')[seed % 2]}
+    # simple prefixes (constant bytes: for CRC-16 zeros keep the register 0, the word is 00 00)
+    for n in (1, 2, 3, 4, 5, 6, 7, 8, 12, 16, 20, 32, 34):
+        for pf in (0x00, 0xFF, 0x31):
+            for form in _OWN_FORMS:
+                for count in (2, 4, 8):
+                    yield {'prefix_len': n, 'prefix_fill': pf, 'parts': [[form, None, 0, count]], 'tail': ('', '05', '746f6e')[(n + count) % 3]}
+    # several such words in one input (record after record, each closed by the checksum of all before it), mixed forms and paddings
+    for n in range(0, 24):
+        for f1 in _OWN_FORMS:
+            for f2 in _OWN_FORMS:
+                seed += 1
+                gap = (0, 2, 4, 6)[seed % 4]
+                yield {'prefix_len': n, 'seed': seed, 'parts': [[f1, None, 0, gap], [f2, None, 0, 2 + seed % 7], [f1, None, 0xFF * (seed % 2), 4]],
+                       'tail': ('', '01', 'abcd')[seed % 3]}
+    # deep inside long inputs (past any block size a word-wise implementation may use), each alignment mod 8
+    longs = [4096, 8192, 65536] + ([262144, 1048576] if tier != 'quick' else [])
+    for base in longs:
+        for d in range(-4, 5):
+            for form in ('crc16-be', 'crc32c-register-le', 'crc32c-le', 'crc16-le'):
+                if form == 'crc16-le' and d % 4:
+                    continue
+                seed += 1
+                yield {'prefix_len': base + d, 'seed': seed, 'parts': [[form, None, 0, (2, 4, 8)[seed % 3]]], 'tail': ('', '05', '746f6e')[seed % 3]}
+
+
+def strat_own(tier):
+    part = st.tuples(st.sampled_from(_OWN_FORMS + ['crc16-be', 'crc32c-register-le']), st.one_of(st.none(), st.none(), st.integers(0, 31)),
+                     st.sampled_from([0, 0, 0, 0xFF, 1, 0x80]), st.integers(0, 17)).map(list)
+    prefix = st.one_of(st.binary(min_size=0, max_size=70), st.builds(lambda b, n: bytes([b]) * n, st.integers(0, 255), st.integers(0, 40)),
+                       st.integers(0, 40).flatmap(lambda n: st.binary(min_size=4 * n, max_size=4 * n)))
+    return st.builds(lambda p, parts, t: {'prefix': p.hex(), 'parts': parts, 'tail': t.hex()}, prefix,
+                     st.lists(part, min_size=1, max_size=4), st.binary(min_size=0, max_size=12))
+
+
+def classify_own(case):
+    n = case['prefix_len'] if 'prefix_len' in case else len(case['prefix']) // 2
+    yield 'first-word-at-offset-mod-8=%d' % (n % 8)
+    yield 'words=%d' % len(case['parts'])
+    for form, flip, fill, count in case['parts']:
+        yield form + ('' if flip is None else '/one-bit-off')
+        yield 'followed-by-%s' % ('nothing' if not count else ('zeros' if fill == 0 else 'other-bytes') + ('<4' if count < 4 else '<8' if count < 8 else '>=8'))
+    yield 'long' if n >= 4000 else 'short'
+
+
 def enum_long(tier):
     sizes = [4095, 4096, 4097, 8191, 8192, 8193, 16384, 32767, 32768, 32769, 65535, 65536, 65537, 131072, 262143, 262144, 262145,
              524288, 1048575, 1048576, 1048577,
@@ -941,6 +1091,12 @@ SUBCHECKS = [
         note='two different strings asked one after the other (first, second, first, second) that agree in length and in another digest '
              '(IEEE CRC-32, Adler-32, the OTHER of the two checksums, byte sum, multiset of bytes, first/last kilobytes) or differ in '
              'length with equal IEEE CRC-32'),
+    Sub('own-checksum-inside-grid', check_own, enum=enum_own, classify=classify_own, shards=(8, 16),
+        note='the input contains the running checksum of everything before it (CRC-16 big / little-endian; CRC-32C shift register before the '
+             'final inversion, or the finished CRC-32C, little / big-endian): after every prefix length 0..40 (every alignment mod 16) and '
+             'around 64, 256, 1024, 4096, 8192, 65536; followed by 0..16 zero / other bytes and a tail of 0..9 bytes; one bit of the word '
+             'flipped; constant prefixes; three such words in one input; every prefix of the input up to 8 bytes past the word is asked too'),
+    Sub('own-checksum-inside', check_own, strategy=strat_own, classify=classify_own, n=(600, 20000), shards=(8, 16)),
     Sub('after-other-entry-points', check_history, strategy=strat_history, classify=classify_history,
         nontrivial=lambda c: any(s['op'] != 'crc' for s in c['steps']), n=(200, 6000), shards=(8, 16),
         note='programs of 1..4 ordinary library calls that use the checksums internally, then the checksum functions on the strings involved'),
